@@ -581,7 +581,7 @@ func formCase(c *ctx, sub uint64, bad bool, class string) {
 			r.Fail("unmarshal-total", "form.Data/own-output/"+panicClass(pan), lines, pan+"\n"+describe())
 			continue
 		case derr != nil:
-			r.Fail("roundtrip", "form.Data/"+p.name+"/decode-error", lines, derr.Error()+"\n"+describe())
+			r.Fail("roundtrip", "form.Data/decode-error/"+errClass(derr), lines, derr.Error()+"\n"+describe())
 			continue
 		}
 		bd, attributable := descOf(&back)
